@@ -18,11 +18,16 @@ PROP = dict(
                dict(fn=Q + "QFunction.parse", rt_skip=True),
                dict(fn=Q + "QDict.parse", rt_skip=True),
                dict(fn=Q + "QList.parse", rt_skip=True),
-               dict(fn=Q + "parse", rt_skip=True)],
+               dict(fn=Q + "parse", rt_skip=True),
+               # name resolution: an unknown variable is an interpret error, a missing RETURN a query (parse) error - nothing else escapes
+               dict(fn=Q + "QVariable.interpret", rt_skip=True),
+               dict(fn=Q + "QInteger.interpret", rt_skip=True),
+               dict(fn=Q + "QString.interpret", rt_skip=True),
+               dict(fn=Q + "get_return", rt_skip=True)],
     timeout_s=20,
     extra=[lambda run: run.query_mode("c17", n=(3000 if run.tier == "quick" else 60000))],
     technique="run-time check of the real code (bounded); with the scanners and parse functions proved total (only QueryParseException) and terminating against contracts",
-    explanation="deductive (parsing): for every string, the six scanners (X.check), _parse_token, the six X.parse functions and parse(statement) raise nothing but QueryParseException - no IndexError from indexing an emptied string, no ValueError from int() (a QInteger token consists of str.isdecimal characters, which int() accepts), no AttributeError from a missing token class - and terminate: every `for` runs over a finite string, every `while` strictly shortens its remaining text, and the mutually recursive parse functions are called on a strictly shorter text (measure len(string)); parse() is proved for the stripped, non-empty statements query() hands it. Character classes and str.strip are uninterpreted apart from the facts stated in T-UNICODE; Python's recursion limit is not modelled (A-STACK: nesting depth ~1000 is outside the property's input domain). Interpretation (name/arity/type resolution, aw_query/functions.py) is only bounded. " 
+    explanation="deductive (name resolution, leaves): QVariable.interpret raises QueryInterpretException exactly when the name is not bound and nothing else; QInteger / QString.interpret raise nothing; get_return raises QueryParseException exactly when RETURN was never assigned (arity and argument-type resolution - QFunction.interpret, the decorators of functions.py - stay bounded).  deductive (parsing): for every string, the six scanners (X.check), _parse_token, the six X.parse functions and parse(statement) raise nothing but QueryParseException - no IndexError from indexing an emptied string, no ValueError from int() (a QInteger token consists of str.isdecimal characters, which int() accepts), no AttributeError from a missing token class - and terminate: every `for` runs over a finite string, every `while` strictly shortens its remaining text, and the mutually recursive parse functions are called on a strictly shorter text (measure len(string)); parse() is proved for the stripped, non-empty statements query() hands it. Character classes and str.strip are uninterpreted apart from the facts stated in T-UNICODE; Python's recursion limit is not modelled (A-STACK: nesting depth ~1000 is outside the property's input domain). Interpretation (name/arity/type resolution, aw_query/functions.py) is only bounded. " 
                 "bounded: random strings over the token alphabet and valid programs corrupted by deleting, duplicating, swapping or inserting characters are run through aw_query.query with a 2 s limit; the call must terminate and either return or raise an exception of the query-error family; any other exception whose innermost frame is in aw_query (outside the body of a built-in) is a violation.",
 )
 
